@@ -21,7 +21,7 @@
 (* VFApi_Trace binds e to logged events; VFApi_MC binds e to every result  *)
 (* the rules allow and model-checks the design-level invariants.           *)
 (***************************************************************************)
-EXTENDS Integers, Sequences, FiniteSets, TLC
+EXTENDS Integers, Sequences, FiniteSets, TLC, PcmPack
 
 OV_FALSE == -1      OV_EOF == -2          OV_HOLE == -3
 OV_EREAD == -128    OV_EFAULT == -129     OV_EIMPL == -130   OV_EINVAL == -131
@@ -116,7 +116,7 @@ ChkRead(s,F,e,n) ==
 \* integer reads: a buffer too small for one frame (or a non-positive word size) is answered with an error, nothing written
 ChkReadI(s,F,e,n) ==
   LET chs == IF s.open /\ s.pos >= 0 /\ s.pos < F.total THEN F.links[LinkOf(F,s.pos)].ch ELSE 0
-      tooSmall == Strict(s,F) /\ s.pos >= 0 /\ s.pos < F.total /\ (e.word <= 0 \/ e.len < e.word * chs)
+      tooSmall == Strict(s,F) /\ s.pos >= 0 /\ (e.word <= 0 \/ (s.pos < F.total /\ e.len < e.word * chs))
   IN IF tooSmall
      THEN (IF e.ret >= 0 THEN {"SmallBufferIsAnError"} ELSE {}) \cup
           (IF ~e.untouched THEN {"ErrorWritesNothing"} ELSE {}) \cup
@@ -124,6 +124,7 @@ ChkReadI(s,F,e,n) ==
      ELSE ChkRead(s,F,e,n) \cup
           (IF e.ret > e.len THEN {"ReadAtMostLen"} ELSE {}) \cup
           (IF e.ret > 0 /\ e.ret # n * e.word * e.ch THEN {"WholeFrames"} ELSE {}) \cup
+          (IF e.ret > 0 /\ e.word \in {1,2} /\ \E i \in 1..Len(e.smp) : ~ConvOK(e.smp[i], e.word, e.sg, e.be) THEN {"PcmConversion"} ELSE {}) \cup
           (IF ~e.guard THEN {"WritesInsideBuffer"} ELSE {})
 
 ChkReadF(s,F,e) ==
